@@ -9,6 +9,7 @@ from engines.kani.runner import HDIR, Insert, prepare, run_harnesses, replay as 
 from vlib.common import Obligation, finish, log
 
 PID = "C16"
+NCX = "verif_ncx_"
 BODY = "lms_body.rs"
 
 # tag, wrapper file, module in src/lms.rs
@@ -103,7 +104,7 @@ H = {
              "ots_siglen+8, ots_siglen+4, 8, 7, 4, 3, 0; q >= 2^h; any LM-OTS type word != ots_type; any LMS type "
              "word != key_type -- all before any hash is computed (unwinding 3 suffices)",
         bounds="12 concrete lengths, all bytes symbolic; all wrong words", quick=ALL, thorough=ALL,
-        cap=(200, 600), weight=30, deep="verif_lms_verify_reject_deep", deep_cap=(900, 1800)),
+        cap=(200, 600), weight=30, deep="verif_ncx_lms_verify_reject_deep", deep_cap=(900, 1800)),
     "verif_lms_ots_sign_ref_q1": dict(
         fn=["PrivateKey::ots_sign", "coef", "checksum"],
         desc="ots_sign == RFC 8554 Algorithm 3 with one SYMBOLIC Winternitz coefficient (Q = 01..01 except Q[5] "
@@ -120,7 +121,7 @@ H = {
         desc="the closed form that replaces the reference Winternitz chain under Kani equals the reference chain run "
              "with the stand-in hash, ranges 0..255, 0..31, 255..255",
         bounds="all I/q/i/start", quick=(), thorough=("s256m32", "shakem24"), cap=(0, 1200), weight=200),
-    "verif_lms_chain_fast_eq_sym": dict(
+    "verif_lms_chainsym_fast_eq": dict(
         fn=["(machinery) ref_chain_fast == ref_chain under the stand-in hash"],
         desc="same with a symbolic entry / exit point",
         bounds="from in 0..=255 symbolic", quick=(), thorough=("s256m32",), cap=(0, 2000), weight=600),
@@ -160,7 +161,8 @@ def sel(tag, k, name):
 
 
 def _short(name):
-    return name[len("verif_lms_"):]
+    s = name[len("verif_lms_"):]
+    return s[:-len("_shallow")] if s.endswith("_shallow") else s
 
 
 def run(tier, only=None):
@@ -182,7 +184,7 @@ def run(tier, only=None):
     items.sort(key=lambda it: -it[5]["weight"])
     res = run_harnesses(sc, [(sel(tag, k, name), cap) for tag, k, f, mod, name, d, cap in items],
                         mem_gb=14, jobs=8, extra_args=KARGS)
-    # escalation: a shallow harness that did not close is re-run with full unwinding
+    # escalation 1: a shallow harness that did not close is re-run with full unwinding (cover-free twin)
     esc = [(tag, k, name, d) for tag, k, f, mod, name, d, cap in items
            if d.get("deep") and res[sel(tag, k, name)].status in ("unwind", "failure")]
     if esc:
@@ -192,7 +194,27 @@ def run(tier, only=None):
         for tag, k, name, d in esc:
             r2 = res2[sel(tag, k, d["deep"])]
             r2.seconds += res[sel(tag, k, name)].seconds
+            r2.covers = res[sel(tag, k, name)].covers
             res[sel(tag, k, name)] = r2
+    # escalation 2: Kani prints one playback test per satisfied cover and per failed check and the runner
+    # replays the first; a failed harness is therefore re-run as its cover-free twin before the replay
+    done = set((tag, name) for tag, k, name, d in esc)
+    tw = [(tag, k, name, cap) for tag, k, f, mod, name, d, cap in items
+          if res[sel(tag, k, name)].status == "failure" and (tag, name) not in done]
+    if tw:
+        log("[C16] re-running %d failed harness(es) without vacuity covers for the replay" % len(tw))
+        res3 = run_harnesses(sc, [(sel(tag, k, NCX + name[len("verif_"):]), cap * 2) for tag, k, name, cap in tw],
+                             mem_gb=14, jobs=8, extra_args=KARGS)
+        for tag, k, name, cap in tw:
+            r3 = res3[sel(tag, k, NCX + name[len("verif_"):])]
+            r1 = res[sel(tag, k, name)]
+            if r3.status == "failure":
+                r3.seconds += r1.seconds
+                r3.covers = r1.covers
+                res[sel(tag, k, name)] = r3
+            else:
+                r1.playback = None
+                r1.failed.append("(cover-free twin: %s)" % r3.status)
     obs, merr = [], None
     for tag, k, f, mod, name, d, cap in items:
         r = res[sel(tag, k, name)]
